@@ -664,6 +664,12 @@ theorem edge_repeated_callee {frame s callee : List String} (m : Nat) (h : Splic
     total s = total frame + m * total callee := by
   rw [splice_total h, calleesTotal_replicate]
 
+/-- an include of a text-only partial in a loop over two items -/
+example : Splice (List.replicate 2 ["EmitRaw"]) ["LoadConst", "Include", "Jump", "LoadConst", "Include", "Jump"]
+      ["LoadConst", "Include", "EmitRaw", "Jump", "LoadConst", "Include", "EmitRaw", "Jump"] :=
+  Splice.own _ (Splice.own _ (Splice.callee ["EmitRaw"] (Splice.own _ (Splice.own _ (Splice.own _
+    (Splice.callee ["EmitRaw"] (Splice.own _ Splice.nil)))))))
+
 /-- an include whose callee is a single `EmitRaw` (literal text only), an empty callee, and a
     callee run three times in a loop -/
 example :
